@@ -1,16 +1,25 @@
 #!/usr/bin/env python3
 """Independent confirmation of a delivered seeded change before it is kept:
- patch applies to /repo HEAD, compiles, the 808-test baseline still passes with it, the
+ patch applies to /repo HEAD (in a scratch worktree of it, /tmp/sv/wt, so /repo itself is never touched), compiles, the 808-test baseline still passes with it, the
  demonstration fails with it and passes without it. Usage: seeded_verify.py <src SEEDED dir> <name>"""
 import json, os, shutil, subprocess, sys, re
 
-def sh(cmd, cwd='/repo'):
+WT = '/tmp/sv/wt'
+
+def sh(cmd, cwd=None):
+    cwd = cwd or WT
     return subprocess.run(cmd, shell=True, cwd=cwd, stdout=subprocess.PIPE, stderr=subprocess.STDOUT, text=True)
 
 def clean():
     return sh('git status --porcelain').stdout.strip() == ''
 
 src, name = sys.argv[1], sys.argv[2]
+head = subprocess.run('git -C /repo rev-parse HEAD', shell=True, stdout=subprocess.PIPE, text=True).stdout.strip()
+if not os.path.isdir(WT):
+    os.makedirs('/tmp/sv', exist_ok=True)
+    subprocess.run(f'git -C /repo worktree add --detach {WT} {head}', shell=True, check=True, stdout=subprocess.DEVNULL, stderr=subprocess.DEVNULL)
+else:
+    sh(f'git checkout -q --detach {head}')
 meta = json.load(open(f'{src}/meta.json'))
 demo = meta['demo'] if isinstance(meta['demo'], str) else meta['demo'][0]
 demo = os.path.basename(demo)
@@ -18,8 +27,8 @@ demo = re.search(r'[\w.-]+\.rs', demo).group(0)
 cmd = meta['demo_cmd']
 m = re.search(r'-p\s+(\S+)', cmd)
 crate = m.group(1)
-assert clean(), '/repo not clean'
-dest_demo = f'/repo/crates/{crate}/tests/{demo}'
+assert clean(), 'scratch worktree not clean'
+dest_demo = f'{WT}/crates/{crate}/tests/{demo}'
 report = {}
 try:
     shutil.copy(f'{src}/{demo}', dest_demo)
@@ -36,7 +45,7 @@ try:
         report['demo_with_change_fails'] = r.returncode != 0
         report['demo_with_tail'] = r.stdout[-600:]
         os.remove(dest_demo)
-        t = subprocess.run(['python3', '/verif/baseline_check.py'], stdout=subprocess.PIPE, stderr=subprocess.STDOUT, text=True)
+        t = subprocess.run(['python3', '/verif/baseline_check.py'], env=dict(os.environ, VERIF_REPO=WT), stdout=subprocess.PIPE, stderr=subprocess.STDOUT, text=True)
         report['baseline_passes_with_change'] = t.returncode == 0
         report['baseline_summary'] = t.stdout.strip().splitlines()[-1] if t.stdout.strip() else ''
 finally:
@@ -52,7 +61,7 @@ if ok:
     shutil.copy(f'{src}/patch.diff', f'{d}/patch.diff')
     shutil.copy(f'{src}/{demo}', f'{d}/{demo}')
     meta['confirmed_by_main'] = {k: v for k, v in report.items() if not k.endswith('_tail')}
-    meta['what_i_ran'] = [cmd + ' (without the change: passes)', 'git -C /repo apply patch.diff; cargo build --offline --workspace', cmd + ' (with the change: fails)', 'python3 /verif/baseline_check.py (808 stable tests pass with the change)']
+    meta['what_i_ran'] = [cmd + ' (without the change: passes)', '(scratch worktree of /repo HEAD) git apply patch.diff; cargo build --offline --workspace', cmd + ' (with the change: fails)', 'python3 /verif/baseline_check.py (808 stable tests pass with the change)']
     json.dump(meta, open(f'{d}/meta.json', 'w'), indent=1)
 else:
     print(report.get('demo_without_tail', '')[-300:]); print(report.get('demo_with_tail', '')[-300:])
